@@ -1,7 +1,7 @@
 #!/bin/bash
 # scripts/try_seed.sh <patch.diff> <check-id>... — apply a seeded change to /repo, run the given quick checks, undo.
 set -u
-patch="$1"; shift
+patch="$(realpath "$1")"; shift
 cd "$(dirname "$0")/.."
 if [ -n "$(git -C /repo status --porcelain)" ]; then echo "/repo is not clean"; exit 2; fi
 git -C /repo apply "$patch" || { echo "patch does not apply"; exit 2; }
